@@ -266,16 +266,34 @@ def run(prog: Program, res: Result, tier: str) -> None:
     okd = len(rets_pr) == 1 and rets_pr[0].startswith("SkyCoord(f") and rets_pr[0].endswith(", unit=(units.hourangle, units.deg))")
     if okd:
         pos_ = -1
-        for piece in ("{int(FloorDiv(src_raj, 10000))}", "{int(FloorDiv(Mod(src_raj, 10000), 100))}", "{Mod(Mod(src_raj, 10000), 100)}",
-                      "{int(FloorDiv(abs(src_dej), 10000))}", "{int(FloorDiv(Mod(abs(src_dej), 10000), 100))}",
-                      "{Mod(Mod(abs(src_dej), 10000), 100)}"):
+        import re as _re4
+        fixed_secs = True
+        for piece, is_sec in (("{int(FloorDiv(src_raj, 10000))}", False), ("{int(FloorDiv(Mod(src_raj, 10000), 100))}", False),
+                              ("{Mod(Mod(src_raj, 10000), 100)", True),
+                              ("{int(FloorDiv(abs(src_dej), 10000))}", False), ("{int(FloorDiv(Mod(abs(src_dej), 10000), 100))}", False),
+                              ("{Mod(Mod(abs(src_dej), 10000), 100)", True)):
             nxt = rets_pr[0].find(piece, pos_ + 1)
             if nxt < 0:
                 okd = False
                 break
             pos_ = nxt
+            if is_sec:
+                # the seconds are a float: without a fixed-point format spec, values below 1e-4 print as "2e-05", which the
+                # coordinate parser rejects (F48)
+                tail = rets_pr[0][nxt + len(piece):]
+                m_ = _re4.match(r"(:[^{}]*)?\}", tail)
+                if m_ is None:
+                    okd = False
+                    break
+                fixed_secs = fixed_secs and bool(m_.group(1)) and bool(_re4.fullmatch(r":\.?\d*\.\d+f", m_.group(1)))
         # six numeric fields and the sign field, nothing else
         okd = okd and rets_pr[0].count("{") == 7
+        key_s = "parse_radec:seconds-format"
+        if okd:
+            (res.ok if fixed_secs else res.bad)("R4", pr, pr.node, "the seconds fields are written in fixed-point notation" if fixed_secs else
+                                                "the seconds of RA/Dec are interpolated with str(): below 1e-4 s they print in exponent notation "
+                                                "(\"2e-05\"), which SkyCoord rejects - a header with |dec| seconds of 0.00002 cannot be read back",
+                                                construct="seconds format", key=key_s)
     (res.ok if okd else res.bad)("R4", pr, pr.node, "DDMMSS.S / HHMMSS.S are split with divmod by 10000 and 100 on the magnitude" if okd else
                                  "parse_radec no longer splits the packed sexagesimal floats by 10000 / 100", construct="parse_radec", key="parse_radec:split")
 
@@ -373,6 +391,8 @@ def run(prog: Program, res: Result, tier: str) -> None:
 S = "sigpyproc/io/sigproc.py"
 H = "sigpyproc/header.py"
 MUTANTS = [
+    {"id": "c05-revert-F48", "file": "sigpyproc/io/sigproc.py", "expect": "C05.R4",
+     "old": "{se:.10f} {sign}{int(de)} {int(ami)} {ase:.10f}", "new": "{se} {sign}{int(de)} {int(ami)} {ase}"},
     {"id": "c05-revert-F37", "file": "sigpyproc/io/sigproc.py", "expect": "C05.R1",
      "old": "            + struct.pack(\"I\", len(value_bytes))\n", "new": "            + struct.pack(\"I\", len(value))\n"},
     {"id": "c05-key-prefix-in-chars", "file": "sigpyproc/io/sigproc.py", "expect": "C05.R1",
